@@ -628,5 +628,49 @@ theorem doFwd_report_source (cfg : Cfg) (st : St) (now : Nat) (sp : SendParams) 
     · simp only [fwdFail, finish_eff, List.nil_append] at he
       exact ⟨_, he, by simpa [Ctr.record, sendAsIs_ctr] using hp, by simpa [Ctr.record, sendAsIs_ctr] using hrn⟩
 
+/-! ### the queue advances whether or not a forward succeeds -/
+
+/-- an idle `_do_fwd` takes the head off the forwarding queue, on success and on every failure -/
+theorem doFwd_fwdQ (cfg : Cfg) (st : St) (now : Nat) (sp : SendParams) :
+    (doFwd cfg st now sp).1.fwdQ = st.fwdQ.tail := by
+  unfold doFwd
+  split
+  · rename_i h; simp [h]
+  · rename_i c0 q hq
+    simp only [hq, List.tail_cons]
+    split
+    · simp only [fwdFail, finish_fwdQ, fwdEdit_fwdQ]
+    · split <;> simp only [fwdFail, finish_fwdQ, sendAsIs_fwdQ, fwdEdit_fwdQ]
+
+/-- with a matching transmit route, an attached CL and no fragmentation takeover, the edited
+    bundle is produced -/
+theorem fwdOut_isSome (cfg : Cfg) (st : St) (now : Nat) (sp : SendParams) (c0 : Ctr)
+    (hr : sp.txBits.any id = true) (hcl : sp.clOk = true)
+    (hf : sp.frag = .none ∨ sp.frag = .raises) : ∃ b, fwdOut cfg st now sp c0 = some b := by
+  have hok := (fwdEdit_stages cfg st now c0).1
+  unfold fwdOut
+  simp only [hok, if_true, sendAsIs, sendRes, hr, hcl]
+  rcases hf with h | h <;> simp [h]
+
+/-- … and handed to the convergence layer by the idle `_do_fwd` that finds it at the head -/
+theorem doFwd_tx_of_fwdOut (cfg : Cfg) (st : St) (now : Nat) (sp : SendParams) (c0 : Ctr) (q : List Ctr)
+    (hq : st.fwdQ = c0 :: q) (b : Bundle) (h : fwdOut cfg { st with fwdQ := q } now sp c0 = some b) :
+    Effect.tx b.enc ∈ (doFwd cfg st now sp).2 := by
+  unfold fwdOut at h
+  unfold doFwd
+  simp only [hq]
+  cases hok : (fwdEdit cfg { st with fwdQ := q } now c0).2.2
+  · simp [hok] at h
+  · simp only [hok, if_true] at h
+    simp only [Bool.not_true, Bool.false_eq_true, if_false]
+    cases hres : (sendAsIs cfg (fwdEdit cfg { st with fwdQ := q } now c0).1 now sp
+        (fwdEdit cfg { st with fwdQ := q } now c0).2.1).2.2 with
+    | sent b' =>
+      simp only [hres, Option.some.injEq] at h
+      subst h
+      simp
+    | consumed => simp [hres] at h
+    | noSender => simp [hres] at h
+
 end Agent
 end DtnVerif
